@@ -94,3 +94,12 @@ func VerifRegistered(name string) bool {
 	lock.RUnlock()
 	return ok
 }
+
+// VerifCopyState transplants the complete breaker state of src (window, lastPass, k) into dst,
+// a breaker obtained from the public constructors.
+func VerifCopyState(dst, src Breaker) {
+	d, s := verifGoogle(dst), verifGoogle(src)
+	d.k = s.k
+	d.stat.VerifCopyFrom(s.stat, func(x, y *bucket) { *x = *y })
+	d.lastPass.Set(s.lastPass.Load())
+}
